@@ -357,32 +357,42 @@ theorem valDigits_append (A B : List Char) :
   unfold valDigits
   rw [List.foldl_append, foldl_digits_acc]
 
+theorem natDigitsAux_spec (f : Nat) : ∀ n, n < f →
+    valDigits (natDigitsAux f n) = n ∧ (∀ c ∈ natDigitsAux f n, isDigit c = true) ∧ natDigitsAux f n ≠ [] ∧
+    ((natDigitsAux f n).head? = some '0' ↔ n = 0) := by
+  induction f with
+  | zero => intro n h; omega
+  | succ f ih =>
+    intro n hn
+    unfold natDigitsAux
+    by_cases h : n < 10
+    · simp only [h, if_true]
+      have := digitChar_props n h
+      refine ⟨by simp [valDigits, this.2.1], by simp [this.1], by simp, ?_⟩
+      simp [this.2.2.2.2.2]
+    · simp only [h, if_false]
+      have hd := digitChar_props (n % 10) (Nat.mod_lt _ (by decide))
+      obtain ⟨i1, i2, i3, i4⟩ := ih (n / 10) (by omega)
+      refine ⟨?_, ?_, by simp, ?_⟩
+      · rw [valDigits_append_single, i1, hd.2.1]; omega
+      · intro c hc
+        simp only [List.mem_append, List.mem_singleton] at hc
+        rcases hc with hc | hc
+        · exact i2 c hc
+        · rw [hc]; exact hd.1
+      · cases hh : natDigitsAux f (n / 10) with
+        | nil => exact absurd hh i3
+        | cons y ys =>
+          rw [hh] at i4
+          simp only [List.cons_append, List.head?_cons] at *
+          constructor
+          · intro h0; have := i4.1 h0; omega
+          · intro h0; omega
+
 theorem natDigits_spec (n : Nat) :
     valDigits (natDigits n) = n ∧ (∀ c ∈ natDigits n, isDigit c = true) ∧ natDigits n ≠ [] ∧
-    ((natDigits n).head? = some '0' ↔ n = 0) := by
-  fun_induction natDigits n with
-  | case1 n h =>
-    have := digitChar_props n h
-    refine ⟨by simp [valDigits, this.2.1], by simp [this.1], by simp, ?_⟩
-    simp [this.2.2.2.2.2]
-  | case2 n h ih =>
-    have hd := digitChar_props (n % 10) (Nat.mod_lt _ (by decide))
-    obtain ⟨i1, i2, i3, i4⟩ := ih
-    refine ⟨?_, ?_, by simp, ?_⟩
-    · rw [valDigits_append_single, i1, hd.2.1]; omega
-    · intro c hc
-      simp only [List.mem_append, List.mem_singleton] at hc
-      rcases hc with hc | hc
-      · exact i2 c hc
-      · rw [hc]; exact hd.1
-    · cases hh : natDigits (n / 10) with
-      | nil => exact absurd hh i3
-      | cons y ys =>
-        rw [hh] at i4
-        simp only [List.cons_append, List.head?_cons] at *
-        constructor
-        · intro h0; have := i4.1 h0; omega
-        · intro h0; omega
+    ((natDigits n).head? = some '0' ↔ n = 0) :=
+  natDigitsAux_spec (n + 1) n (by omega)
 
 theorem fracDigits_spec (k n : Nat) :
     valDigits (fracDigits k n) = n % 10 ^ k ∧ (∀ c ∈ fracDigits k n, isDigit c = true) ∧
@@ -422,8 +432,7 @@ theorem trimEnd_append_ne (c : Char) (A B : List Char) (hB : trimEnd c B ≠ [])
     rw [trimEnd_cons, ih]
     simp [hB]
 
-theorem natDigits_zero : natDigits 0 = ['0'] := by
-  unfold natDigits; simp; rfl
+theorem natDigits_zero : natDigits 0 = ['0'] := by decide
 
 theorem digit_ne_dot (c : Char) (h : isDigit c = true) : c ≠ '.' ∧ c ≠ '-' ∧ c ≠ '+' := by
   refine ⟨?_, ?_, ?_⟩ <;> (intro e; subst e; revert h; decide)
@@ -656,5 +665,142 @@ theorem print_digits_value (cl : Bool) (s : Nat) (I0 F' : List Char)
       simp only [hc, if_false]
       rw [this, natDigits_zero]
 
+
+
+theorem lit_value_eq (neg : Bool) (I0 F' : List Char) (s : Nat)
+    (h : valDigits (I0 ++ F') * 10000000000 = s * 10 ^ F'.length) :
+    ({ neg := neg, int := I0, frac := F', exp := 0 } : Lit).value =
+      if neg = true then -((s : Rat) / 10000000000) else (s : Rat) / 10000000000 := by
+  have hA : ((10 ^ F'.length : Nat) : Rat) ≠ 0 := by
+    intro e; rw [Rat.natCast_eq_zero_iff] at e
+    have := @Nat.pow_pos 10 F'.length (by decide)
+    omega
+  have hc : ((valDigits (I0 ++ F') : Nat) : Rat) * (10000000000 : Rat) = (s : Rat) * ((10 ^ F'.length : Nat) : Rat) := by
+    have := congrArg (fun n : Nat => (n : Rat)) h
+    simp only [Rat.natCast_mul] at this
+    simpa using this
+  have key := div_eq_div_of_cross _ _ _ _ hA (by decide : (10000000000 : Rat) ≠ 0) hc
+  have one : ((1 : Nat) : Rat) = 1 := rfl
+  unfold Lit.value
+  simp only [Int.toNat_zero, Nat.pow_zero, ge_iff_le, Int.le_refl, if_true, one, Rat.mul_one]
+  rw [key]
+
+theorem body_head (I0 F' : List Char) (dI : ∀ c ∈ I0, isDigit c = true) (c : Char) (r : List Char)
+    (h : I0 ++ (if F' = [] then [] else '.' :: F') = c :: r) : c ≠ '-' ∧ c ≠ '+' := by
+  cases I0 with
+  | nil =>
+    simp only [List.nil_append] at h
+    split at h
+    · cases h
+    · injection h with h1 _; subst h1; decide
+  | cons y ys =>
+    simp only [List.cons_append] at h
+    injection h with h1 _; subst h1
+    have := digit_ne_dot y (dI y (by simp))
+    exact ⟨this.2.1, this.2.2⟩
+
+/-- an empty or "0" body means both digit lists are trivial -/
+theorem body_trivial (I0 F' : List Char)
+    (hb : I0 ++ (if F' = [] then [] else '.' :: F') = [] ∨ I0 ++ (if F' = [] then [] else '.' :: F') = ['0']) :
+    F' = [] ∧ (I0 = [] ∨ I0 = ['0']) := by
+  by_cases hF : F' = []
+  · subst hF
+    simp only [if_true, List.append_nil] at hb
+    exact ⟨rfl, hb⟩
+  · simp only [hF, if_false] at hb
+    rcases hb with hb | hb
+    · have := (List.append_eq_nil_iff.1 hb).2; cases this
+    · cases I0 with
+      | nil => simp only [List.nil_append] at hb; injection hb with h1 _; exact absurd h1 (by decide)
+      | cons y ys =>
+        simp only [List.cons_append] at hb
+        injection hb with _ h2
+        have := (List.append_eq_nil_iff.1 h2).2; cases this
+
+abbrev special (buf : List Char) : Prop := buf = [] ∨ buf = ['-'] ∨ buf = ['-', '0']
+
+theorem printFinite_unfold (compressed : Bool) (x : Rat) :
+    printFinite false compressed x =
+      if special ((if x < 0 then ['-'] else []) ++ printAbs false compressed (decide (absQ x < 1)) (scaled10 x))
+      then ['0'] else (if x < 0 then ['-'] else []) ++ printAbs false compressed (decide (absQ x < 1)) (scaled10 x) := by
+  rfl
+
+theorem special_body (neg : Prop) [Decidable neg] (body : List Char)
+    (hhead : ∀ (c : Char) (r : List Char), body = c :: r → c ≠ '-' ∧ c ≠ '+')
+    (hsp : ((if neg then ['-'] else []) ++ body = [] ∨ (if neg then ['-'] else []) ++ body = ['-'] ∨
+            (if neg then ['-'] else []) ++ body = ['-', '0'])) : body = [] ∨ body = ['0'] := by
+  by_cases hx : neg
+  · rw [if_pos hx] at hsp
+    rcases hsp with h | h | h
+    · exact absurd h (List.cons_ne_nil _ _)
+    · exact Or.inl (List.cons.inj h).2
+    · exact Or.inr (List.cons.inj h).2
+  · rw [if_neg hx] at hsp
+    rcases hsp with h | h | h
+    · exact Or.inl h
+    · exact absurd rfl (hhead '-' [] h).1
+    · exact absurd rfl (hhead '-' ['0'] h).1
+
+theorem parse_signed_body (neg : Prop) [Decidable neg] (body : List Char)
+    (hhead : ∀ (c : Char) (r : List Char), body = c :: r → c ≠ '-' ∧ c ≠ '+')
+    (l : Bool → Lit) (hp : ∀ b, parseBody b body = some (l b)) :
+    parseLit ((if neg then ['-'] else []) ++ body) = some (l (decide neg)) := by
+  by_cases hx : neg
+  · rw [if_pos hx, decide_eq_true hx]
+    exact hp true
+  · rw [if_neg hx, decide_eq_false hx]
+    show parseLit body = some (l false)
+    unfold parseLit
+    split
+    · rename_i r; exact absurd rfl (hhead '-' r rfl).1
+    · rename_i r; exact absurd rfl (hhead '+' r rfl).2
+    · exact hp false
+
+theorem printFinite_parse (compressed : Bool) (x : Rat) :
+    ∃ l, parseLit (printFinite false compressed x) = some l ∧ l.value = round10 x := by
+  rw [printFinite_unfold, printAbs_char]
+  generalize hI : (if (compressed && decide (absQ x < 1)) = true ∧ scaled10 x / 10000000000 = 0 then []
+      else natDigits (scaled10 x / 10000000000)) = I0
+  generalize hF : trimEnd '0' (fracDigits 10 (scaled10 x % 10000000000)) = F'
+  obtain ⟨dI, dF, _, _, hval, hI0nil, hI0z, hF0, _⟩ :=
+    print_digits_value (compressed && decide (absQ x < 1)) (scaled10 x) I0 F' hI.symm hF.symm
+  have hs := Nat.div_add_mod (scaled10 x) 10000000000
+  have hhead := body_head I0 F' dI
+  have htriv := body_trivial I0 F'
+  generalize hbody : I0 ++ (if F' = [] then [] else '.' :: F') = body at *
+  by_cases hsp : special ((if x < 0 then ['-'] else []) ++ body)
+  · rw [if_pos hsp]
+    refine ⟨⟨false, ['0'], [], 0⟩, by decide, ?_⟩
+    have ht := htriv (special_body (x < 0) body hhead hsp)
+    have e1 : scaled10 x % 10000000000 = 0 := hF0 ht.1
+    have e2 : scaled10 x / 10000000000 = 0 := by
+      rcases ht.2 with h | h
+      · exact hI0nil h
+      · exact hI0z h
+    have hz : scaled10 x = 0 := by rw [e1, e2] at hs; omega
+    have hv0 : ({ neg := false, int := ['0'], frac := [], exp := 0 } : Lit).value = 0 := by decide +kernel
+    have z0 : ((0 : Nat) : Rat) / 10000000000 = 0 := by decide +kernel
+    rw [hv0]
+    unfold round10
+    rw [hz, z0]
+    split <;> rfl
+  · rw [if_neg hsp]
+    have hne : I0 ≠ [] ∨ F' ≠ [] := by
+      by_cases h1 : I0 = []
+      · by_cases h2 : F' = []
+        · exfalso; apply hsp
+          have : body = [] := by rw [← hbody, h1, h2]; rfl
+          rw [this]
+          by_cases hx : x < 0
+          · rw [if_pos hx]; exact Or.inr (Or.inl rfl)
+          · rw [if_neg hx]; exact Or.inl rfl
+        · exact Or.inr h2
+      · exact Or.inl h1
+    have hp := fun neg => parseBody_digits neg I0 F' dI dF hne
+    rw [hbody] at hp
+    refine ⟨_, parse_signed_body (x < 0) body hhead _ hp, ?_⟩
+    rw [lit_value_eq (decide (x < 0)) I0 F' (scaled10 x) hval]
+    unfold round10
+    simp only [decide_eq_true_eq]
 
 end Grass.Num
